@@ -2430,3 +2430,199 @@ func c15WriterCall(w *World, a *crlAnchors, setUnit []*ssa.Function) (*ssa.Call,
 	}
 	return wcall, fr, ""
 }
+
+// ---- C15 (guard pass): a missing entry leaves the reader by no other return than the miss --------------------------
+
+// c15Way: one way by which a returned error value arrives at a return — the value itself (leaf: not a phi), the block
+// it is used in (the return's block, or the predecessor a phi edge comes from) and the facts every path that delivers
+// it this way has passed.
+type c15Way struct {
+	leaf  ssa.Value
+	at    *ssa.BasicBlock
+	facts map[string]string
+}
+
+func c15JoinFacts(a, b map[string]string) map[string]string {
+	out := map[string]string{}
+	for l, s := range a {
+		out[l] = s
+	}
+	for l, s := range b {
+		out[l] = s
+	}
+	return out
+}
+
+// c15LeafWays: all the ways the value v, used in block `at`, can arrive (c15ErrWays asks for the ways of one target;
+// this one lists every way): a phi contributes, per incoming edge, the ways of the edge's value joined with what every
+// path that enters the phi's block by that edge has passed (an edge no path can take contributes nothing); any other
+// value is a leaf with what every path from the entry to `at` has passed. ok=false: not understood (a phi on a cycle,
+// a result variable a deferred function may rewrite, nesting too deep).
+func c15LeafWays(fi *FnInfo, v ssa.Value, at *ssa.BasicBlock, depth int) ([]c15Way, bool) {
+	if depth > 6 {
+		return nil, false
+	}
+	if sv := spilledRet(v); sv != v {
+		if c15RewrittenResult(v) {
+			return nil, false
+		}
+		v = sv
+	}
+	if ph, isPhi := v.(*ssa.Phi); isPhi {
+		pb := ph.Block()
+		if fi.reachHit([]state{{pb.Index, 0, -1}}, nil, map[int]bool{pb.Index: true}) {
+			return nil, false
+		}
+		var out []c15Way
+		for i, e := range ph.Edges {
+			pred := pb.Preds[i]
+			cut := map[edgeKey]bool{}
+			for _, q := range pb.Preds {
+				for j, sx := range q.Succs {
+					if sx == pb && q != pred {
+						cut[edgeKey{q.Index, j}] = true
+					}
+				}
+			}
+			in, reach := fi.mustPassBetweenCut([]int{0}, map[int]bool{pb.Index: true}, cut)
+			if !reach {
+				continue
+			}
+			ways, ok := c15LeafWays(fi, e, pred, depth+1)
+			if !ok {
+				return nil, false
+			}
+			for _, wy := range ways {
+				out = append(out, c15Way{wy.leaf, wy.at, c15JoinFacts(wy.facts, in)})
+			}
+		}
+		return out, true
+	}
+	facts := map[string]string{}
+	if at.Index != 0 {
+		l, reach := fi.mustPassBetween([]int{0}, map[int]bool{at.Index: true})
+		if !reach {
+			return nil, true
+		}
+		facts = l
+	}
+	return []c15Way{{v, at, facts}}, true
+}
+
+// c15EveryWayAfter: in fn, every way by which a non-nil error arrives at a return that can be reached after the call
+// `after` (the way's block is the call's block or reachable from it) either has passed one of the facts `pass`, or
+// delivers an error `carries` accepts. n = the ways that had to rely on `carries` or on nothing (the ways the rule is
+// about: the call happened and none of the `pass` facts is established); bad = the first way that relies on nothing
+// (`what` names the pass facts in words for that message); undecided = why the returns of fn are not understood.
+func c15EveryWayAfter(fi *FnInfo, after *ssa.Call, pass []string, what string, carries func(leaf ssa.Value, at *ssa.BasicBlock) bool) (n int, bad, undecided string) {
+	w := fi.W
+	ab := after.Block()
+	for _, b := range fi.Fn.Blocks {
+		r, isRet := blockTerm(b).(*ssa.Return)
+		if !isRet || len(r.Results) == 0 || !isErrorType(r.Results[len(r.Results)-1].Type()) {
+			continue
+		}
+		ways, ok := c15LeafWays(fi, r.Results[len(r.Results)-1], b, 0)
+		if !ok {
+			if undecided == "" {
+				undecided = "the error returned at " + w.InstrPos(r) + " is not understood (a result variable rewritten by a deferred function, or an error collected around a loop)"
+			}
+			continue
+		}
+		var toRet map[string]string
+		if b.Index != 0 {
+			toRet, _ = fi.mustPassBetween([]int{0}, map[int]bool{b.Index: true})
+		}
+		for _, wy := range ways {
+			if isNilConst(wy.leaf) {
+				continue // a success: get/read-error answers for it
+			}
+			if wy.at != ab && !fi.reachHit([]state{{ab.Index, 0, -1}}, nil, map[int]bool{wy.at.Index: true}) {
+				continue // decided before the call
+			}
+			facts := c15JoinFacts(wy.facts, toRet)
+			if labelHasAny(facts, pass) {
+				continue
+			}
+			n++
+			if !carries(wy.leaf, wy.at) && bad == "" {
+				bad = fmt.Sprintf("the return at %s can deliver %s on a path that has passed neither %s; facts that do hold on every path that delivers it: %s", w.InstrPos(r), trunc(desc(wy.leaf), 160), what, summarizeLabels(facts, 8))
+			}
+		}
+	}
+	return n, bad, undecided
+}
+
+// c15MissingOnlyMiss: "for URLs never stored the result is a cache miss" as a must-pass rule. get/missing-is-miss
+// finds a return of the sentinel behind the passing edge of the not-exist test — it still finds it when that test got
+// an extra conjunct (`if strict && errors.Is(err, fs.ErrNotExist)`): the sentinel's return is simply reached less
+// often, and a missing file falls through to the return of the plain read error. A caller that asks errors.Is(err,
+// ErrCacheMiss) — the revocation fetcher does, to decide between "download the CRL" and "fail" — then fails for every
+// URL it has not seen before. What is required here is the complement: in the function that reads, every way an
+// error other than the sentinel can be returned once the read has happened lies behind "the read error is nil" or
+// behind the FAILING edge of the not-exist test (errors.Is(err, fs.ErrNotExist) or os.IsNotExist(err), on the error of
+// the os.ReadFile call itself, directly or inside a predicate of the module — the engine reads the predicate's facts
+// with its parameter replaced by the argument). And when the read stands in a function Get calls, the same on every
+// caller of the chain: every way an error that does not carry the call's error (itself, or wrapped with %w) can be
+// returned after the call lies behind "the call's error is nil" or behind "the call's error is not the sentinel".
+//
+// Shapes accepted: the test nested under `err != nil` or standing before it; `if`, `switch { case … }`, the negated
+// test with the arms exchanged; the test in a bool helper; one return per outcome or one return of an error local
+// (the arms of the phi are judged one by one); the sentinel returned as it is or wrapped with %w / errors.Join.
+func (c *Ctx) c15MissingOnlyMiss(Get, Fr *ssa.Function, rf *ssa.Call, frR *c15Frame) {
+	w := c.W
+	const sentinel = "global:core/revocation/crl.ErrCacheMiss"
+	key := "get/missing-only-miss"
+	rule := "must-pass: once os.ReadFile has failed, every return of an error other than the cache-miss sentinel lies behind the failing edge of the not-exist test (errors.Is(err, fs.ErrNotExist) / os.IsNotExist(err) is false) — a URL never stored can leave Get by no other error than the miss; each function between Get and the read hands that error on"
+	rfi := w.Info(Fr)
+	re := desc(rf) + "#err"
+	pass := []string{"EQ(" + re + ",nil)", "F(call:errors.Is(" + re + ",global:io/fs.ErrNotExist))", "F(call:os.IsNotExist(" + re + "))"}
+	n, bad, und := c15EveryWayAfter(rfi, rf, pass, "\"the read error is nil\" nor the failing edge of the not-exist test on the read error", func(leaf ssa.Value, at *ssa.BasicBlock) bool {
+		return len(c15SentinelWays(rfi, leaf, at, sentinel, 0)) > 0
+	})
+	c.Evals += n + 1
+	site := w.InstrPos(rf)
+	if bad == "" && und == "" && n == 0 {
+		bad = "no return of " + fnName(Fr) + " delivers an error for a failed read"
+	}
+	for fr := frR; bad == "" && und == "" && fr != nil && !fr.ident && fr.call != nil; fr = fr.outer {
+		call := fr.call
+		caller := call.Parent()
+		cfi := w.Info(caller)
+		ce := desc(call)
+		if !isErrorType(call.Type()) {
+			ce = ""
+			for _, ref := range *call.Referrers() {
+				if ex, ok := ref.(*ssa.Extract); ok && isErrorType(ex.Type()) {
+					ce = desc(ex)
+				}
+			}
+		}
+		if ce == "" {
+			bad = fnName(caller) + " drops the error of " + calleeName(call)
+			site = w.InstrPos(call)
+			break
+		}
+		isErr := c15IsErrOf(call)
+		m, b2, u2 := c15EveryWayAfter(cfi, call, []string{"EQ(" + ce + ",nil)", "F(call:errors.Is(" + ce + "," + sentinel + "))"}, "\"the call's error is nil\" nor \"the call's error is not the miss sentinel\"", func(leaf ssa.Value, at *ssa.BasicBlock) bool {
+			return len(c15ErrWays(cfi, leaf, at, isErr, 0)) > 0 || len(c15SentinelWays(cfi, leaf, at, sentinel, 0)) > 0
+		})
+		c.Evals += m + 1
+		if b2 == "" && u2 == "" && m == 0 {
+			b2 = "no return of " + fnName(caller) + " delivers the error of " + calleeName(call)
+		}
+		if b2 != "" {
+			bad = "in " + fnName(caller) + ", after " + calleeName(call) + " failed, " + b2
+			site = w.InstrPos(call)
+		}
+		und = u2
+	}
+	switch {
+	case bad != "":
+		c.Bad(key, rule, site, bad)
+	case und != "":
+		c.Unk(key, rule, site, und)
+	default:
+		c.OK(key, rule, site)
+	}
+}
